@@ -4,6 +4,7 @@ mod c03;
 mod c04;
 mod c05;
 mod c06;
+mod c09;
 mod c10;
 mod sweep;
 mod c11;
@@ -32,6 +33,7 @@ fn dispatch_run(prop: &str, ctx: &mut Ctx) -> bool {
         "C04" => c04::run(ctx),
         "C05" => c05::run(ctx),
         "C06" => c06::run(ctx),
+        "C09" => c09::run(ctx),
         "C10" => c10::run(ctx),
         "C12" => c12::run(ctx),
         "C13" => c13::run(ctx),
@@ -50,6 +52,7 @@ fn dispatch_replay(prop: &str, ctx: &mut Ctx, scenario: &Value) -> Result<(), St
         "C04" => c04::replay(ctx, scenario),
         "C05" => c05::replay(ctx, scenario),
         "C06" => c06::replay(ctx, scenario),
+        "C09" => c09::replay(ctx, scenario),
         "C10" => c10::replay(ctx, scenario),
         "C12" => c12::replay(ctx, scenario),
         "C13" => c13::replay(ctx, scenario),
